@@ -339,10 +339,27 @@ func InterestText(i *spec.Interest, cov enc.Wire) string {
 
 // Built is the last packet made in a history.
 type Built struct {
-	Kind   byte // 'D' or 'I'
-	Wire   []byte
-	Signer string
-	Rec    *RecSigner
+	Kind    byte // 'D' or 'I'
+	Wire    []byte
+	SegLens []int // lengths of the buffers of the wire exactly as the encoder returned it (may contain 0)
+	Signer  string
+	Rec     *RecSigner
+}
+
+func segLens(w enc.Wire) []int {
+	out := make([]int, len(w))
+	for i, b := range w {
+		out[i] = len(b)
+	}
+	return out
+}
+
+func segsText(l []int) string {
+	parts := make([]string, len(l))
+	for i, n := range l {
+		parts[i] = strconv.Itoa(n)
+	}
+	return strings.Join(parts, ",")
 }
 
 // MakeData runs "mkd <name> <ct> <fr> <fb> <content> <signer>" on the real code.
@@ -368,7 +385,8 @@ func MakeData(f []string) (string, *Built) {
 		return "err " + recErrText(rec), nil
 	}
 	w := append([]byte{}, ed.Wire.Join()...)
-	return "ok w=" + common.Hex(w) + " " + recText(rec, ed.SigCovered), &Built{Kind: 'D', Wire: w, Signer: f[6], Rec: rec}
+	sl := segLens(ed.Wire)
+	return "ok w=" + common.Hex(w) + " " + recText(rec, ed.SigCovered) + " segs=" + segsText(sl), &Built{Kind: 'D', Wire: w, SegLens: sl, Signer: f[6], Rec: rec}
 }
 
 func recErrText(rec *RecSigner) string {
@@ -409,16 +427,36 @@ func MakeInterest(f []string) (string, *Built) {
 		return "err " + recErrText(rec), nil
 	}
 	w := append([]byte{}, ei.Wire.Join()...)
-	return "ok w=" + common.Hex(w) + " " + recText(rec, ei.SigCovered) + " fn=" + common.NameText(ei.FinalName),
-		&Built{Kind: 'I', Wire: w, Signer: f[9], Rec: rec}
+	sl := segLens(ei.Wire)
+	return "ok w=" + common.Hex(w) + " " + recText(rec, ei.SigCovered) + " fn=" + common.NameText(ei.FinalName) + " segs=" + segsText(sl),
+		&Built{Kind: 'I', Wire: w, SegLens: sl, Signer: f[9], Rec: rec}
 }
 
 // Segment cuts b at the given offsets ("c" = contiguous BufferReader; "w" = one-segment WireReader;
 // "3,17" = WireReader over segments [0,3) [3,17) [17,len)). Offsets outside (0,len) or not
 // increasing are dropped, so that every segment is non-empty.
+// OwnSegs: segmentation used by the cut spec "own" = the buffers of the wire exactly as the encoder
+// returned them (including empty buffers), i.e. reading EncodedData.Wire back directly.
+var OwnSegs []int
+
 func Reader(b []byte, cuts string) enc.ParseReader {
 	if cuts == "c" {
 		return enc.NewBufferReader(b)
+	}
+	if cuts == "own" {
+		var w enc.Wire
+		off := 0
+		for _, n := range OwnSegs {
+			if off+n > len(b) {
+				break
+			}
+			w = append(w, b[off:off+n])
+			off += n
+		}
+		if off < len(b) {
+			w = append(w, b[off:])
+		}
+		return enc.NewWireReader(w)
 	}
 	var w enc.Wire
 	last := 0
